@@ -4,8 +4,10 @@ CONSTANTS
   Keyspaces = {"ks1", "Ks2", "nope"}
   Valid = {"ks1", "Ks2"}
   Attr <- MCAttr
+  NHosts = 2
   MaxOps = 5
-  StoreUnderReadLock = TRUE
-INVARIANTS ForwardInClientKs OnlyValidKs
-PROPERTIES FailedUseKeepsKs Isolation
+  StoreUnderReadLock = @STOREUNDERREAD@
+  SelectIgnoresFailure = @SELECTIGNORES@
+INVARIANTS ForwardInClientKs OnlyValidKs NoBrokenSession
+PROPERTIES FailedUseKeepsKs Isolation TableWriteExclusive
 CHECK_DEADLOCK FALSE
